@@ -32,6 +32,7 @@ def run(ctx: Ctx):
 
     shared_cache_slots(ctx, "public-alias.cache-slot", "cubepart.py", "_Slice", ("column_index", "smoothed_column_index"))
     baselines(ctx)
+    valid_rows_by_index_not_range(ctx)
     source_table(ctx)
     factory(ctx)
     from .common import slice_index_space
@@ -404,3 +405,44 @@ def no_explicit_nan(ctx: Ctx):
         ctx.violated("index-nan", f"{MM}::_ColumnIndex*", bad, "NaN only from the divisions and from NanSubtotals", "cells are blanked by another criterion than an undefined share")
     else:
         ctx.held("index-nan", f"{MM}::_ColumnIndex*", "no explicit NaN besides NanSubtotals", "")
+
+
+def valid_rows_by_index_not_range(ctx: Ctx):
+    """The counts-with-missings still carry the MISSING elements of every axis, wherever they stand in the payload: the valid
+    rows are selected by their OFFSETS (`[self._valid_row_idxs]`).  A leading range of as many rows as there are valid
+    elements (`[:len(valid_elements)]`) is the valid rows only while no missing element precedes a valid one."""
+    from ..stmts import resolver
+
+    ctl = ast.parse("def baseline(self):\n    nrows = len(self._dimensions[-2].valid_elements)\n    return np.sum(self._counts_with_missings[:nrows], axis=2)[:, 0]\ndef ok(self):\n    return np.sum(self._counts_with_missings, axis=2)[:, 0][self._valid_row_idxs]\n")
+
+    def hits_in(fn):
+        res = resolver(fn, multi=True)
+        out = []
+        for n in ast.walk(fn):
+            if not (isinstance(n, ast.Subscript) and "with_missings" in u(n.value)):
+                continue
+            parts = n.slice.elts if isinstance(n.slice, ast.Tuple) else [n.slice]
+            for p in parts:
+                if isinstance(p, ast.Slice):
+                    for bound in (p.lower, p.upper):
+                        if bound is not None and any("valid_elements" in u(v) or "valid_row_idxs" in u(v) or "valid_idxs" in u(v) for v in res(bound)):
+                            out.append(u(n)[:90])
+        return out
+
+    if len(hits_in(ctl.body[0])) != 1 or hits_in(ctl.body[1]):
+        raise AnalysisError("valid-rows-by-index: the controls are no longer recognised")
+    mod = ctx.repo.module(LY.MCM)
+    n, hits = 0, []
+    for ci in mod.classes.values():
+        if "Unconditional" not in ci.name:
+            continue
+        for m in ci.members.values():
+            n += 1
+            for t in hits_in(m.node):
+                hits.append((f"{LY.MCM}::{ci.name}.{m.name}", t))
+    ctx.count("unconditional-count members scanned for ranged row selection", n)
+    ctx.require_min("unconditional-count members scanned for ranged row selection", 5)
+    for where, t in hits:
+        ctx.violated("baseline-rows.by-index", where, t, "the valid rows selected by their offsets (self._valid_row_idxs)", "with a missing element ahead of a valid one the range drops the LAST row instead of the missing one: every later row is divided by another element's share")
+    if not hits:
+        ctx.held("baseline-rows.by-index", "unconditional cube counts", f"{n} members, no range of the raw axis bounded by the number of valid elements", "", "controls recognised")
